@@ -1,5 +1,6 @@
 import PyamgV.Proofs.ExtC16Relax
 import PyamgV.Proofs.ExtC02XComplex
+import PyamgV.Proofs.ExtC16YSchwarz
 
 /-! PyamgV (C16, extension E51): **complex matrices, energy clauses for gauss_seidel / sor / jacobi** as relaxation-type
 coarse solvers.
@@ -14,7 +15,7 @@ A complex vector `x : Array CRat` is read as the pair `toPair (fn x) = (Re x, Im
 set_option linter.unusedSectionVars false
 set_option linter.unusedVariables false
 namespace PyamgV.C16Y
-open PyamgV PyamgV.K PyamgV.C16 PyamgV.C16R PyamgV.C02X Finset
+open PyamgV PyamgV.K PyamgV.C16 PyamgV.C16R PyamgV.C02X PyamgV.ExtC09 Finset
 
 theorem fn_zerosC (n : Nat) : fn (Array.replicate n (0 : CRat)) = 0 := by
   funext i
@@ -109,5 +110,122 @@ theorem relax_jacobi_energy_complex (name : String) (o : Opts CRat) (ri : Rec CR
   refine ⟨_, hsolve, ?_⟩
   exact csm_from_zero_energy (C02.Sm.jac ω (o.iterations.getD 10)) A hH hp diag hdiag
     (show _ ∧ _ ∧ _ ∧ _ from ⟨him, h0, hnz, hD⟩) b hb XS hxs
+
+/-! ## schwarz on complex matrices
+
+The kernel model contains no conjugation; `ExtC09.schwarzStep_residual_zero` holds over any field, so one subdomain step
+with an exact inverse block is an exact subspace correction for the complex energy form as well. -/
+
+/-- **one subdomain step, complex Hermitian positive semidefinite matrix, exact inverse block** -/
+theorem schwarzStep_cenergy (A : Csr CRat)
+    (hH : IsCAdj (euc ℚ A.n) (euc ℚ A.n) (ccsrOp A.n (rowOf A)) (ccsrOp A.n (rowOf A)))
+    (hp : ∀ w, 0 ≤ (cip (euc ℚ A.n) (ccsrOp A.n (rowOf A) w) w).1)
+    (b Tx : Array CRat) (Tp Sj Sp : Array Nat) (x : Array CRat) (hx : x.size = A.n) (d : Nat)
+    (hin : ∀ c < sSize Sp d, sIdx Sj Sp d c < A.n) (hT : SubRightInv A Tx Tp Sj Sp d)
+    (XS : CPair) (hxs : ccsrOp A.n (rowOf A) XS = toPair (fn b)) :
+    (cEnergy (euc ℚ A.n) (ccsrOp A.n (rowOf A)) hH hp).en (XS - toPair (fn (schwarzStep A b Tx Tp Sj Sp x d))) ≤
+      (cEnergy (euc ℚ A.n) (ccsrOp A.n (rowOf A)) hH hp).en (XS - toPair (fn x)) := by
+  set x' := schwarzStep A b Tx Tp Sj Sp x d with hx'
+  have key : XS - toPair (fn x') = (XS - toPair (fn x)) - (toPair (fn x') - toPair (fn x)) := by abel
+  rw [key]
+  apply EForm.en_sub_le
+  rw [← key]
+  show (euc ℚ A.n).realify.a (ccsrOp A.n (rowOf A) (XS - toPair (fn x'))) (toPair (fn x') - toPair (fn x)) = 0
+  rw [EForm.realify_apply, euc_apply, euc_apply, ← Finset.sum_add_distrib]
+  apply Finset.sum_eq_zero
+  intro p hp'
+  have hpn : p < A.n := mem_range.1 hp'
+  by_cases hex : ∃ c, c < sSize Sp d ∧ sIdx Sj Sp d c = p
+  · obtain ⟨c, hc, hcp⟩ := hex
+    have hres : rowDot (rowOf A p) (fn x') = fn b p := by
+      rw [← C16Y.csrRow_eq_rowDot, ← C16Y.vec_eq_fn, ← hcp]
+      exact schwarzStep_residual_zero A b Tx Tp Sj Sp x d (fun c hc => by rw [hx]; exact hin c hc) hT c hc
+    obtain ⟨h1, h2⟩ := ccsrOp_apply A.n (rowOf A) (fn x') p hpn
+    have e1 : (ccsrOp A.n (rowOf A) (XS - toPair (fn x'))).1 p = 0 := by
+      rw [map_sub, hxs, Prod.fst_sub, Pi.sub_apply, h1, hres]; simp [toPair]
+    have e2 : (ccsrOp A.n (rowOf A) (XS - toPair (fn x'))).2 p = 0 := by
+      rw [map_sub, hxs, Prod.snd_sub, Pi.sub_apply, h2, hres]; simp [toPair]
+    rw [e1, e2]; ring
+  · have h2 : fn x' p = fn x p := by
+      show rd (schwarzStep A b Tx Tp Sj Sp x d) p = rd x p
+      rw [schwarzStep_entry A b Tx Tp Sj Sp x d p (by rw [hx]; exact hpn)]
+      have : (∑ c ∈ range (sSize Sp d), if sIdx Sj Sp d c = p then sCorr A b Tx x Tp Sj Sp d c else 0) = 0 := by
+        apply Finset.sum_eq_zero
+        intro c hc
+        rw [if_neg (fun e => hex ⟨c, mem_range.1 hc, e⟩)]
+      rw [this, add_zero]
+    have e1 : (toPair (fn x') - toPair (fn x)).1 p = 0 := by simp [toPair, h2]
+    have e2 : (toPair (fn x') - toPair (fn x)).2 p = 0 := by simp [toPair, h2]
+    rw [e1, e2]; ring
+
+/-- the Python driver `relaxation.schwarz` on Gaussian rationals: sizes kept, complex energy never increases -/
+theorem pySchwarz_cenergy (A : Csr CRat)
+    (hH : IsCAdj (euc ℚ A.n) (euc ℚ A.n) (ccsrOp A.n (rowOf A)) (ccsrOp A.n (rowOf A)))
+    (hp : ∀ w, 0 ≤ (cip (euc ℚ A.n) (ccsrOp A.n (rowOf A) w) w).1)
+    (b Tx : Array CRat) (Tp Sj Sp : Array Nat)
+    (hin : ∀ d, d < Sp.size - 1 → ∀ c < sSize Sp d, sIdx Sj Sp d c < A.n)
+    (hT : ∀ d, d < Sp.size - 1 → SubRightInv A Tx Tp Sj Sp d)
+    (iters : Nat) (sw : Sweep) (XS : CPair) (hxs : ccsrOp A.n (rowOf A) XS = toPair (fn b))
+    (x : Array CRat) (hx : x.size = A.n) :
+    (pySchwarz A b Tx Tp Sj Sp iters sw x).size = A.n ∧
+      (cEnergy (euc ℚ A.n) (ccsrOp A.n (rowOf A)) hH hp).en (XS - toPair (fn (pySchwarz A b Tx Tp Sj Sp iters sw x))) ≤
+        (cEnergy (euc ℚ A.n) (ccsrOp A.n (rowOf A)) hH hp).en (XS - toPair (fn x)) := by
+  have hsweep : ∀ (doms : List Nat), (∀ d ∈ doms, d < Sp.size - 1) → ∀ x : Array CRat, x.size = A.n →
+      (schwarzSweep A b Tx Tp Sj Sp doms x).size = A.n ∧
+      (cEnergy (euc ℚ A.n) (ccsrOp A.n (rowOf A)) hH hp).en (XS - toPair (fn (schwarzSweep A b Tx Tp Sj Sp doms x))) ≤
+        (cEnergy (euc ℚ A.n) (ccsrOp A.n (rowOf A)) hH hp).en (XS - toPair (fn x)) := by
+    intro doms
+    induction doms with
+    | nil => intro _ x hx; exact ⟨hx, le_refl _⟩
+    | cons d rest ih =>
+      intro hd x hx
+      have h1 := schwarzStep_cenergy A hH hp b Tx Tp Sj Sp x hx d (hin d (hd d (by simp))) (hT d (hd d (by simp))) XS hxs
+      have hsz : (schwarzStep A b Tx Tp Sj Sp x d).size = A.n := by rw [schwarzStep_size, hx]
+      obtain ⟨h2, h3⟩ := ih (fun e he => hd e (by simp [he])) (schwarzStep A b Tx Tp Sj Sp x d) hsz
+      unfold K.schwarzSweep at h2 h3 ⊢
+      simp only [List.foldl_cons]
+      exact ⟨h2, le_trans h3 h1⟩
+  have hpass : ∀ bw, ∀ x : Array CRat, x.size = A.n →
+      (schwarzSweep A b Tx Tp Sj Sp (dirRows (Sp.size - 1) bw) x).size = A.n ∧
+      (cEnergy (euc ℚ A.n) (ccsrOp A.n (rowOf A)) hH hp).en
+          (XS - toPair (fn (schwarzSweep A b Tx Tp Sj Sp (dirRows (Sp.size - 1) bw) x))) ≤
+        (cEnergy (euc ℚ A.n) (ccsrOp A.n (rowOf A)) hH hp).en (XS - toPair (fn x)) :=
+    fun bw x hx => hsweep _ (fun d hd => (mem_dirRows _ _ _).1 hd) x hx
+  unfold K.pySchwarz
+  cases sw with
+  | forward =>
+    exact kiter_energy (fun x : Array CRat => x.size = A.n)
+      (fun x => (cEnergy (euc ℚ A.n) (ccsrOp A.n (rowOf A)) hH hp).en (XS - toPair (fn x))) _ (hpass false) iters x hx
+  | backward =>
+    exact kiter_energy (fun x : Array CRat => x.size = A.n)
+      (fun x => (cEnergy (euc ℚ A.n) (ccsrOp A.n (rowOf A)) hH hp).en (XS - toPair (fn x))) _ (hpass true) iters x hx
+  | symmetric =>
+    exact kiter_energy (fun x : Array CRat => x.size = A.n)
+      (fun x => (cEnergy (euc ℚ A.n) (ccsrOp A.n (rowOf A)) hH hp).en (XS - toPair (fn x)))
+      (fun x => schwarzSweep A b Tx Tp Sj Sp (dirRows (Sp.size - 1) true)
+        (schwarzSweep A b Tx Tp Sj Sp (dirRows (Sp.size - 1) false) x))
+      (fun x hx => by
+        obtain ⟨a1, a2⟩ := hpass false x hx
+        obtain ⟨a3, a4⟩ := hpass true _ a1
+        exact ⟨a3, le_trans a4 a2⟩) iters x hx
+
+/-- **energy clause, schwarz, complex matrices**: exact recorded inverse blocks, Hermitian positive semidefinite matrix -/
+theorem relax_schwarz_energy_complex (o : Opts CRat) (ri : Rec CRat) (A : Csr CRat)
+    (ho : o.omega = none) (hr : o.withrho = none) (hrec : schwarzRecOK A.n ri = true)
+    (hT : ∀ d, d < ri.sp.size - 1 → SubRightInv A ri.tx ri.tp ri.sj ri.sp d)
+    (b : Array CRat) (hb : b.size = A.n)
+    (hH : IsCAdj (euc ℚ A.n) (euc ℚ A.n) (ccsrOp A.n (rowOf A)) (ccsrOp A.n (rowOf A)))
+    (hp : ∀ w, 0 ≤ (cip (euc ℚ A.n) (ccsrOp A.n (rowOf A) w) w).1)
+    (XS : CPair) (hxs : ccsrOp A.n (rowOf A) XS = toPair (fn b)) :
+    ∃ x, relaxSolveR CRat.conj "schwarz" o ri A b = .ok x ∧ x.size = b.size ∧
+      (cEnergy (euc ℚ A.n) (ccsrOp A.n (rowOf A)) hH hp).en (XS - toPair (fn x)) ≤
+        (cEnergy (euc ℚ A.n) (ccsrOp A.n (rowOf A)) hH hp).en XS := by
+  refine ⟨_, (relaxSolveR_schwarz CRat.conj o ri A b hb ho hr hrec).1, ?_⟩
+  obtain ⟨s, e⟩ := pySchwarz_cenergy A hH hp b ri.tx ri.tp ri.sj ri.sp
+    (fun d hd c hc => schwarzRecOK_idx A.n ri hrec d hd c hc) hT (o.iterations.getD 10) (o.sweep.getD .forward)
+    XS hxs (x0 b) (by simp [hb])
+  refine ⟨by rw [s, hb], ?_⟩
+  rw [fn_zerosC, toPair_zero, sub_zero] at e
+  exact e
 
 end PyamgV.C16Y
